@@ -304,6 +304,22 @@ pub fn sites(tier: Tier) -> Vec<Site> {
         let alpha = Arc::new(alpha);
         let a2 = alpha.clone();
         {
+            // a character of no page whose code point is that of a repertoire character plus 0x10000 / 0x30000,
+            // followed by that character: a lookup keyed on truncated code points would confuse the two
+            let chars: Vec<char> = t.union.iter().copied().filter(|c| (*c as u32) >= 0x80 && (*c as u32) < 0x1_0000).collect();
+            let chars = Arc::new(chars);
+            let tt2 = t.clone();
+            let n = chars.len() as u64 * 2;
+            sites.push(Site::new("astral-alias", n,
+                "every BMP character y of the repertoire behind the unrepresentable character with code point y + 0x10000 (and y + 0x30000; plane 2 is left out because Big5-HKSCS reaches into it) and a space",
+                move |i, acc| {
+                    let y = chars[(i / 2) as usize];
+                    let x = char::from_u32(y as u32 + if i % 2 == 0 { 0x1_0000 } else { 0x3_0000 }).unwrap_or('\u{1f600}');
+                    let s = format!("{x} {y}{y}");
+                    roundtrip_case(&tt2, &s, i, "astral-alias", "seq", acc);
+                }));
+        }
+        {
             // no memory between calls: every ordered pair of strings of length <= 2 over the same alphabet,
             // converted one after the other on one thread - the second result is the one it has on its own
             let mut short: Vec<String> = vec![String::new()];
@@ -384,14 +400,15 @@ pub fn sites(tier: Tier) -> Vec<Site> {
             b"^L".to_vec(), b"^J".to_vec(), b"^8".to_vec(), b"^".to_vec(), b"^Ja".to_vec(), b"^E\xe9".to_vec(),
             vec![0x83, 0x5e], vec![b'^', b'J', 0x83, 0x5e], vec![0x5e, 0x83], vec![b'^', b'K', 0x94, 0xee],
             vec![b'^', b'J', 0xfa, 0x5e], vec![b'^', b'H', 0xa1, 0x5e], vec![b'^', b'S', 0x81, 0x5e, b'8'], b"a^C\xf8".to_vec(),
-            b"^L^G^C^E^T^B^J^S^K^H".to_vec(), vec![0xff],
+            b"^L^G^C^E^T^B^J^S^K^H".to_vec(), vec![0xff], b"a".to_vec(), vec![0xe9], vec![0x83, 0x41],
         ];
-        let prefixes: Vec<Vec<u8>> = vec![vec![], b"a".to_vec(), b"ab".to_vec(), vec![0xe9]];
-        let reps: Vec<usize> = vec![1, 2, 3, 7, 31, 32, 33, 63, 64, 65, 66, 100, 127, 128, 129, 130];
+        let prefixes: Vec<Vec<u8>> = vec![vec![], b"a".to_vec(), b"ab".to_vec(), vec![0xe9], b"^E".to_vec(), b"^J".to_vec()];
+        // (and one-byte / two-byte units up to 5000 repetitions: a single run of text far longer than any block or buffer)
+        let reps: Vec<usize> = vec![1, 2, 3, 7, 31, 32, 33, 63, 64, 65, 66, 100, 127, 128, 129, 130, 255, 256, 257, 511, 512, 513, 1023, 1024, 1025, 5000];
         let n = (units.len() * prefixes.len() * reps.len()) as u64;
         let tt = t.clone();
         sites.push(Site::new("bytes-long", n,
-            "{nothing, a, ab, one high byte} followed by one of 16 units (markers, resets, lone carets, page switches with text, double-byte characters with caret-like / lead-like trail bytes, all ten markers in a row) repeated 1..130 times (up to ~2.6 kB)",
+            "{nothing, a, ab, one high byte, ^E, ^J} followed by one of 19 units (markers, resets, lone carets, page switches with text, double-byte characters with caret-like / lead-like trail bytes, all ten markers in a row) repeated 1..5000 times",
             move |i, acc| {
                 let u = &units[(i as usize) % units.len()];
                 let p = &prefixes[(i as usize / units.len()) % prefixes.len()];
